@@ -32,6 +32,7 @@ Proof. induction L as [|x L IH]; intros [|y R]; cbn [map2]; try reflexivity. rew
 Lemma map2_map2_l {A B C D} (f : A -> B -> C) (g : C -> A -> D) : forall L R,
   map2 g (map2 f L R) L = map2 (fun l r => g (f l r) l) L R.
 Proof. induction L as [|x L IH]; intros [|y R]; cbn [map2]; try reflexivity. rewrite IH. reflexivity. Qed.
+Lemma pow62 : 2 ^ 62 = 4611686018427387904. Proof. reflexivity. Qed.
 Lemma filter_true {A} (l : list A) : filter (fun _ => true) l = l.
 Proof. induction l as [|x l IH]; cbn [filter]; [reflexivity|]. rewrite IH. reflexivity. Qed.
 
@@ -333,3 +334,947 @@ Proof.
     + rewrite map2_map2_l, map2_fst_snd. reflexivity.
     + rewrite map2_map2_r, map2_fst_snd. reflexivity.
 Qed.
+
+Lemma adjacent_bigram_generic c aps :
+  adjacent_bigram c (map fst aps) (map snd aps) =
+  (run_counts (np_sort (map (fun p => key (fst p)) (filter adjtest aps))), map (contA c) (filter adjtest aps)).
+Proof. unfold adjacent_bigram. rewrite combine_fst_snd. destruct c; reflexivity. Qed.
+
+(* ------------------------------------------------------------------ *)
+(* per-document sums of (document, count) lists                        *)
+(* ------------------------------------------------------------------ *)
+Definition ksum (d : N) (kvs : list (N * N)) : N :=
+  fold_right (fun kv acc => if fst kv =? d then snd kv + acc else acc) 0 kvs.
+
+Lemma ksum_cons d kv t : ksum d (kv :: t) = if fst kv =? d then snd kv + ksum d t else ksum d t.
+Proof. reflexivity. Qed.
+Lemma ksum_app d l1 l2 : ksum d (l1 ++ l2) = ksum d l1 + ksum d l2.
+Proof.
+  induction l1 as [|kv l1 IH]; [reflexivity|]. cbn [app]. rewrite !ksum_cons, IH.
+  destruct (fst kv =? d); lia.
+Qed.
+Lemma ksum_perm d l1 l2 : Permutation l1 l2 -> ksum d l1 = ksum d l2.
+Proof.
+  induction 1 as [|x l l' _ IH|x y l|l l' l'' _ IH1 _ IH2]; rewrite ?ksum_cons; try congruence.
+  - rewrite IH. reflexivity.
+  - destruct (fst x =? d), (fst y =? d); lia.
+Qed.
+Lemma ksum_notin d l : ~ In d (map fst l) -> ksum d l = 0.
+Proof.
+  induction l as [|kv l IH]; intro H; [reflexivity|]. rewrite ksum_cons. cbn [map In] in H.
+  destruct (N.eqb_spec (fst kv) d); [tauto|]. apply IH. tauto.
+Qed.
+
+Lemma ksum_runs_sum d : forall kvs, ksum d (runs_sum kvs) = ksum d kvs.
+Proof.
+  induction kvs as [|[k v] t IH]; [reflexivity|]. rewrite Linear_Proofs.runs_sum_cons, (ksum_cons d (k, v) t), <- IH.
+  destruct (runs_sum t) as [|[k' s] rest]; [reflexivity|].
+  destruct (N.eqb_spec k k') as [<-|Hne]; rewrite !ksum_cons; cbn [fst snd].
+  - destruct (k =? d); lia.
+  - reflexivity.
+Qed.
+
+Lemma runs_sum_keys_in x : forall kvs, In x (map fst (runs_sum kvs)) -> In x (map fst kvs).
+Proof.
+  induction kvs as [|[k v] t IH]; [intros []|]. rewrite Linear_Proofs.runs_sum_cons. cbn [map fst In].
+  destruct (runs_sum t) as [|[k' s] rest]; cbn [map fst In]; [tauto|].
+  destruct (k =? k'); cbn [map fst In] in *; intuition.
+Qed.
+
+Lemma runs_sum_sorted_keys : forall kvs, StronglySorted N.le (map fst kvs) ->
+  StronglySorted N.lt (map fst (runs_sum kvs)).
+Proof.
+  induction kvs as [|[k v] t IH]; intro H; [constructor|]. cbn [map fst] in H.
+  inversion H as [|? ? Hs Hf]; subst. specialize (IH Hs). rewrite Linear_Proofs.runs_sum_cons.
+  pose proof (runs_sum_keys_in) as Hin.
+  destruct (runs_sum t) as [|[k' s] rest] eqn:E; cbn [map fst]; [repeat constructor|].
+  assert (Hk : k <= k').
+  { rewrite Forall_forall in Hf. apply Hf. apply (Hin k' t). rewrite E. now left. }
+  cbn [map fst] in IH. inversion IH as [|? ? IHs IHf]; subst.
+  destruct (N.eqb_spec k k') as [<-|Hne]; cbn [map fst].
+  - constructor; assumption.
+  - constructor; [exact IH|]. constructor; [lia|]. eapply Forall_impl; [|exact IHf]. cbn. intros; lia.
+Qed.
+
+(* a list with strictly increasing keys: lookup is the per-key sum *)
+Lemma lookup_ksum d : forall L : list (N * N), StronglySorted N.lt (map fst L) ->
+  match lookup d L with Some c => c = ksum d L | None => ksum d L = 0 end.
+Proof.
+  induction L as [|[k v] t IH]; intro H; [reflexivity|]. cbn [map fst] in H.
+  inversion H as [|? ? Hs Hf]; subst. specialize (IH Hs). cbn [lookup]. rewrite ksum_cons. cbn [fst snd].
+  rewrite (N.eqb_sym k d). destruct (N.eqb_spec d k) as [->|Hne]; [|exact IH].
+  rewrite ksum_notin; [lia|]. intro Hin. rewrite Forall_forall in Hf. apply Hf in Hin. lia.
+Qed.
+
+Lemma run_counts_runs_sum : forall l, run_counts l = runs_sum (map (fun x => (x, 1)) l).
+Proof.
+  induction l as [|x t IH]; [reflexivity|]. cbn [map]. rewrite Linear_Proofs.runs_sum_cons, <- IH. cbn [run_counts].
+  destruct (run_counts t) as [|[y n] rest]; [reflexivity|].
+  destruct (x =? y); [|reflexivity]. rewrite N.add_comm. reflexivity.
+Qed.
+
+Lemma np_sort_perm l : Permutation l (np_sort l).
+Proof. apply NSort.Permuted_sort. Qed.
+Lemma np_sort_sorted l : StronglySorted N.le (np_sort l).
+Proof.
+  unfold np_sort.
+  assert (H : StronglySorted (fun x y => is_true (NOrder.leb x y)) (NSort.sort l)).
+  { apply NSort.StronglySorted_sort. intros x y z. unfold NOrder.leb, is_true. rewrite !N.leb_le. lia. }
+  induction H as [|a t Hs IH Hf]; constructor; [exact IH|].
+  eapply Forall_impl; [|exact Hf]. cbn. intros b Hb. unfold NOrder.leb, is_true in Hb. apply N.leb_le. exact Hb.
+Qed.
+
+Lemma insert_kv_perm kv l : Permutation (kv :: l) (insert_kv kv l).
+Proof.
+  induction l as [|y t IH]; [reflexivity|]. cbn [insert_kv]. destruct (fst kv <=? fst y); [reflexivity|].
+  rewrite perm_swap. apply perm_skip. exact IH.
+Qed.
+Lemma fold_insert_kv_perm l : Permutation l (fold_right insert_kv [] l).
+Proof.
+  induction l as [|x l IH]; [reflexivity|]. cbn [fold_right]. rewrite <- insert_kv_perm. apply perm_skip. exact IH.
+Qed.
+Lemma insert_kv_sorted kv l : StronglySorted N.le (map fst l) -> StronglySorted N.le (map fst (insert_kv kv l)).
+Proof.
+  induction l as [|y t IH]; intro H; cbn [insert_kv map]; [repeat constructor|].
+  cbn [map] in H. inversion H as [|? ? Hs Hf]; subst.
+  destruct (N.leb_spec (fst kv) (fst y)); cbn [map].
+  - constructor; [exact H|]. constructor; [lia|]. eapply Forall_impl; [|exact Hf]. cbn. intros; lia.
+  - constructor; [apply IH; exact Hs|].
+    eapply Permutation_Forall; [apply Permutation_map, insert_kv_perm|]. cbn [map].
+    constructor; [lia|exact Hf].
+Qed.
+Lemma fold_insert_kv_sorted' l : StronglySorted N.le (map fst (fold_right insert_kv [] l)).
+Proof. induction l as [|x l IH]; cbn [fold_right]; [constructor|]. apply insert_kv_sorted. exact IH. Qed.
+
+(* merged counts: strictly increasing documents, and lookup = sum of the two sides *)
+Lemma merged_counts pfi pfa :
+  let m := sort_merge_counts_spec (map fst pfi) (map snd pfi) (map fst pfa) (map snd pfa) in
+  StronglySorted N.lt (map fst m) /\
+  forall d, match lookup d m with Some c => c = ksum d pfi + ksum d pfa | None => ksum d pfi + ksum d pfa = 0 end.
+Proof.
+  unfold sort_merge_counts_spec. rewrite !combine_fst_snd. cbn zeta.
+  assert (Hs : StronglySorted N.lt (map fst (runs_sum (fold_right insert_kv [] (pfi ++ pfa)))))
+    by apply runs_sum_sorted_keys, fold_insert_kv_sorted'.
+  split; [exact Hs|]. intro d. pose proof (lookup_ksum d _ Hs) as H.
+  rewrite ksum_runs_sum, <- (ksum_perm d _ _ (fold_insert_kv_perm (pfi ++ pfa))), ksum_app in H. exact H.
+Qed.
+
+(* ------------------------------------------------------------------ *)
+(* _set_adjbit_at_header                                               *)
+(* ------------------------------------------------------------------ *)
+Definition memh (w : N) (L : list N) : bool := existsb (fun y => hdr y =? hdr w) L.
+Definition cbit (c : cont) : N := match c with CR => 1 | CL => upper_bit end.
+
+Lemma memh_true w L : memh w L = true <-> exists y, In y L /\ hdr y = hdr w.
+Proof.
+  unfold memh. rewrite existsb_exists. split; intros (y & Hy & E); exists y; (split; [exact Hy|]);
+    [apply N.eqb_eq|apply N.eqb_eq]; exact E.
+Qed.
+Lemma memh_in_map w L : memh w L = true <-> In (hdr w) (map hdr L).
+Proof.
+  rewrite memh_true, in_map_iff. split; intros (y & H1 & H2); exists y; tauto.
+Qed.
+
+Lemma or_at_P (P : N -> bool) bit : forall l i idx,
+  (forall j, (j < length l)%nat -> existsb (N.eqb (i + N.of_nat j)) idx = P (nth j l 0)) ->
+  or_at i idx bit l = map (fun w => if P w then N.lor w bit else w) l.
+Proof.
+  induction l as [|x l IH]; intros i idx H; [reflexivity|]. cbn [or_at map].
+  pose proof (H 0%nat ltac:(cbn [length]; lia)) as H0. cbn [nth N.of_nat] in H0. rewrite N.add_0_r in H0.
+  rewrite H0. f_equal. apply IH. intros j Hj. specialize (H (S j) ltac:(cbn [length]; lia)).
+  cbn [nth] in H. rewrite <- H. f_equal. f_equal. lia.
+Qed.
+Lemma remove_idx_P (P : N -> bool) : forall l i idx,
+  (forall j, (j < length l)%nat -> existsb (N.eqb (i + N.of_nat j)) idx = P (nth j l 0)) ->
+  remove_idx i idx l = filter (fun w => negb (P w)) l.
+Proof.
+  induction l as [|x l IH]; intros i idx H; [reflexivity|]. cbn [remove_idx filter].
+  pose proof (H 0%nat ltac:(cbn [length]; lia)) as H0. cbn [nth N.of_nat] in H0. rewrite N.add_0_r in H0.
+  rewrite H0.
+  assert (E : remove_idx (i + 1) idx l = filter (fun w => negb (P w)) l).
+  { apply IH. intros j Hj. specialize (H (S j) ltac:(cbn [length]; lia)).
+    cbn [nth] in H. rewrite <- H. f_equal. f_equal. lia. }
+  rewrite E. destruct (P x); reflexivity.
+Qed.
+Lemma or_at_nil bit : forall l i, or_at i [] bit l = l.
+Proof. induction l as [|x l IH]; intro i; [reflexivity|]. cbn [or_at existsb]. rewrite IH. reflexivity. Qed.
+Lemma remove_idx_nil : forall l i, remove_idx i [] l = l.
+Proof. induction l as [|x l IH]; intro i; [reflexivity|]. cbn [remove_idx existsb]. rewrite IH. reflexivity. Qed.
+
+Lemma nth_map_hdr j l : nth j (map hdr l) 0 = hdr (nth j l 0).
+Proof. change 0 with (hdr 0) at 1. apply map_nth. Qed.
+
+Lemma set_adjbit_unfold c I J : I <> [] -> J <> [] ->
+  set_adjbit_at_header c I J =
+  (ado ix <- lift (intersect_drop I J header_mask);
+   let '(same_inner, same_adj) := ix in
+   let '(inner', adj') := match same_inner with
+                          | [] => (I, J)
+                          | _ => (or_at 0 same_inner (cbit c) I, remove_idx 0 same_adj J)
+                          end in
+   lift (merge inner' adj')).
+Proof. intros HI HJ. destruct I; [congruence|]. destruct J; [congruence|]. destruct c; reflexivity. Qed.
+
+Theorem set_adjbit_spec c I J :
+  StronglySorted N.lt (map hdr I) -> StronglySorted N.lt (map hdr J) ->
+  N.of_nat (length I) < 2 ^ 62 -> N.of_nat (length J) < 2 ^ 62 ->
+  set_adjbit_at_header c I J =
+  AOk (mrg (map (fun w => if memh w J then N.lor w (cbit c) else w) I) (filter (fun w => negb (memh w I)) J)).
+Proof.
+  intros HsI HsJ HlI HlJ.
+  destruct I as [|i0 I'].
+  { cbn [set_adjbit_at_header map]. rewrite mrg_nil_l. f_equal. symmetry.
+    rewrite <- (filter_true J) at 2. apply filter_ext. reflexivity. }
+  destruct J as [|j0 J'].
+  { cbn [set_adjbit_at_header filter]. rewrite mrg_nil_r. f_equal. symmetry.
+    rewrite <- (map_id (i0 :: I')) at 2. apply map_ext. reflexivity. }
+  remember (i0 :: I') as I eqn:EI. remember (j0 :: J') as J eqn:EJ.
+  rewrite set_adjbit_unfold by (subst; discriminate).
+  rewrite intersect_drop_correct by (try apply hs_msorted; assumption).
+  rewrite drop_spec_dpairs, !mvals_hdr. cbn [lift abind].
+  set (dp := dpairs (map hdr I) (map hdr J)).
+  pose proof (ss_lt_nodup' _ HsI) as NI. pose proof (ss_lt_nodup' _ HsJ) as NJ.
+  assert (E1 : or_at 0 (map fst dp) (cbit c) I = map (fun w => if memh w J then N.lor w (cbit c) else w) I).
+  { apply (or_at_P (fun w => memh w J)). intros j Hj. rewrite N.add_0_l. apply bool_eq_iff.
+    change (existsb (N.eqb (N.of_nat j)) (map fst dp)) with (mem_n (N.of_nat j) (map fst dp)).
+    rewrite mem_n_In. unfold dp. rewrite dfst_mem by (rewrite ?map_length; try assumption; lia).
+    rewrite Nat2N.id, nth_map_hdr, memh_in_map. reflexivity. }
+  assert (E2 : remove_idx 0 (map snd dp) J = filter (fun w => negb (memh w I)) J).
+  { apply (remove_idx_P (fun w => memh w I)). intros j Hj. rewrite N.add_0_l. apply bool_eq_iff.
+    change (existsb (N.eqb (N.of_nat j)) (map snd dp)) with (mem_n (N.of_nat j) (map snd dp)).
+    rewrite mem_n_In. unfold dp. rewrite dsnd_mem by (rewrite ?map_length; try assumption; lia).
+    rewrite Nat2N.id, nth_map_hdr, memh_in_map. reflexivity. }
+  destruct (map fst dp) as [|a0 si] eqn:Ef.
+  - assert (Es : map snd dp = []) by (apply dpairs_nil_snd; exact Ef).
+    rewrite Es in E2. rewrite or_at_nil in E1. rewrite remove_idx_nil in E2.
+    rewrite <- E1, <- E2. rewrite merge_model. reflexivity.
+  - rewrite E1, E2, merge_model. reflexivity.
+Qed.
+
+(* ------------------------------------------------------------------ *)
+(* word-level facts about the continuation words, uniform in c         *)
+(* ------------------------------------------------------------------ *)
+Definition off (c : cont) : N := match c with CR => 1 | CL => 0 end.      (* END vs START position *)
+Definition abit (c : cont) : N := match c with CR => 0 | CL => 17 end.    (* bit set by the cross-word case *)
+Definition asel (c : cont) (p : N * N) : N := match c with CR => snd p | CL => fst p end.
+
+Lemma cbit_val c : cbit c = 2 ^ abit c.
+Proof. destruct c; [apply upper_bit_val|reflexivity]. Qed.
+Lemma cbit_lt c : cbit c < 262144.
+Proof. destruct c; cbn [cbit]; [rewrite upper_bit_val|]; lia. Qed.
+Lemma abit_lt c : abit c < 18.
+Proof. destruct c; cbn; lia. Qed.
+
+Lemma lt64_high a i : a < 18446744073709551616 -> 64 <= i -> N.testbit a i = false.
+Proof.
+  intros Ha Hi. rewrite <- (N.mod_small a (2 ^ 64)) by (rewrite pow64; exact Ha).
+  apply N.mod_pow2_bits_high. exact Hi.
+Qed.
+Lemma lor_lt64 a b : a < 18446744073709551616 -> b < 18446744073709551616 -> N.lor a b < 18446744073709551616.
+Proof.
+  intros Ha Hb. rewrite <- pow64. apply bits_below_lt. intros i Hi.
+  destruct (N.lt_ge_cases i 64) as [H|H]; [exact H|].
+  rewrite N.lor_spec, !lt64_high in Hi by assumption. discriminate.
+Qed.
+Lemma hdr_lor_cbit c w : hdr (N.lor w (cbit c)) = hdr w.
+Proof.
+  unfold hdr. rewrite N.land_lor_distr_l.
+  replace (N.land (cbit c) header_mask) with 0 by (destruct c; vm_compute; reflexivity).
+  apply N.lor_0_r.
+Qed.
+Lemma testbit_lor_cbit c w i : N.testbit (N.lor w (cbit c)) i = N.testbit w i || (i =? abit c).
+Proof. rewrite N.lor_spec, cbit_val, N.pow2_bits_eqb, N.eqb_sym. reflexivity. Qed.
+
+Section ContI.
+Variables (c : cont) (x y : N).
+Hypothesis Hx : x < 18446744073709551616.
+Hypothesis Hy : y < 18446744073709551616.
+Hypothesis Hh : hdr y = hdr x.
+Lemma contI_eq : contI c (x, y) = hdr x + match c with CR => 2 * ov x y | CL => ov x y end.
+Proof. destruct c; cbn [contI fst snd]; [apply cwL_eq; exact Hx|rewrite cwR_eq, Hh by exact Hy; reflexivity]. Qed.
+Lemma contI_pay : match c with CR => 2 * ov x y | CL => ov x y end < 262144.
+Proof. pose proof (ov_lt x y). destruct c; lia. Qed.
+Lemma contI_lt : contI c (x, y) < 18446744073709551616.
+Proof. rewrite contI_eq. apply mk_lt; [exact Hx|apply contI_pay]. Qed.
+Lemma contI_hdr : hdr (contI c (x, y)) = hdr x.
+Proof. rewrite contI_eq. apply mk_hdr; [exact Hx|apply contI_pay]. Qed.
+Lemma contI_lsb_popcount : popcount (lsb (contI c (x, y))) = popcount (ov x y).
+Proof.
+  rewrite contI_eq, mk_lsb by (try exact Hx; apply contI_pay). destruct c; [reflexivity|apply popcount_double].
+Qed.
+Lemma contI_bit j : j < 17 -> N.testbit (contI c (x, y)) (j + off c) = N.testbit x j && N.testbit y (j + 1).
+Proof.
+  intro Hj. rewrite contI_eq, mk_testbit by (try exact Hx; try apply contI_pay; destruct c; cbn [off]; lia).
+  destruct c; cbn [off].
+  - rewrite N.add_0_r, ov_testbit. destruct (N.ltb_spec j 17); [reflexivity|lia].
+  - rewrite double_testbit, ov_testbit. replace (j + 1 - 1) with j by lia.
+    replace (j + 1 =? 0) with false by (symmetry; apply N.eqb_neq; lia).
+    destruct (N.ltb_spec j 17); [reflexivity|lia].
+Qed.
+Lemma contI_abit : N.testbit (contI c (x, y)) (abit c) = false.
+Proof.
+  rewrite contI_eq, mk_testbit by (try exact Hx; try apply contI_pay; apply abit_lt).
+  destruct c; cbn [abit].
+  - rewrite ov_testbit. reflexivity.
+  - apply N.testbit_even_0.
+Qed.
+End ContI.
+
+Section ContA.
+Variables (c : cont) (p : N * N).
+Hypothesis Hs : asel c p < 18446744073709551616.
+Lemma contA_eq : contA c p = hdr (asel c p) + cbit c.
+Proof.
+  destruct c; cbn [contA asel cbit] in *; rewrite header_of_hdr; apply lor_hdr_r; try assumption;
+    [rewrite upper_bit_val|]; lia.
+Qed.
+Lemma contA_lt : contA c p < 18446744073709551616.
+Proof. rewrite contA_eq. apply mk_lt; [exact Hs|apply cbit_lt]. Qed.
+Lemma contA_hdr : hdr (contA c p) = hdr (asel c p).
+Proof. rewrite contA_eq. apply mk_hdr; [exact Hs|apply cbit_lt]. Qed.
+Lemma contA_bit i : i < 18 -> N.testbit (contA c p) i = (i =? abit c).
+Proof.
+  intro Hi. rewrite contA_eq, mk_testbit by (try exact Hs; try exact Hi; apply cbit_lt).
+  rewrite cbit_val, N.pow2_bits_eqb, N.eqb_sym. reflexivity.
+Qed.
+End ContA.
+
+(* ------------------------------------------------------------------ *)
+(* the step, computed                                                  *)
+(* ------------------------------------------------------------------ *)
+Definition aps (A B : list N) : list (N * N) := filter adjtest (apairs A B).
+Definition NI (c : cont) (A B : list N) : list N := map (contI c) (ipairs A B).
+Definition NA (c : cont) (A B : list N) : list N := map (contA c) (aps A B).
+Definition step_next (c : cont) (A B : list N) : list N :=
+  mrg (map (fun w => if memh w (NA c A B) then N.lor w (cbit c) else w) (NI c A B))
+      (filter (fun w => negb (memh w (NI c A B))) (NA c A B)).
+Definition step_counts (A B : list N) : list (N * N) :=
+  let pfi := runs_sum (inner_kvs (ipairs A B)) in
+  let pfa := run_counts (np_sort (map (fun p => key (fst p)) (aps A B))) in
+  sort_merge_counts_spec (map fst pfi) (map snd pfi) (map fst pfa) (map snd pfa).
+(* no word occurs in both lists: rules out the same-term branch of _inner_bigram_freqs *)
+Definition nocommon (A B : list N) : Prop := forall w, In w A -> In w B -> False.
+
+Lemma In_ipairs A B x y : wf_post B -> (In (x, y) (ipairs A B) <-> In x A /\ In y B /\ hdr y = hdr x).
+Proof. intro HB. exact (In_lpairs hdr hdr (fun v => v) A B x y (wf_nodup _ HB)). Qed.
+Lemma In_apairs A B x y : wf_post B -> (In (x, y) (apairs A B) <-> In x A /\ In y B /\ hdr y = hdr x + 262144).
+Proof. intro HB. exact (In_lpairs hdr hdr (fun v => v + 262144) A B x y (wf_nodup _ HB)). Qed.
+Lemma In_aps A B x y : wf_post B ->
+  (In (x, y) (aps A B) <-> In x A /\ In y B /\ hdr y = hdr x + 262144 /\ adjtest (x, y) = true).
+Proof. intro HB. unfold aps. rewrite filter_In, In_apairs by exact HB. tauto. Qed.
+
+Lemma ss_key_of_hdr l : StronglySorted N.lt (map hdr l) -> Forall (fun w => w < 18446744073709551616) l ->
+  StronglySorted N.le (map key l).
+Proof.
+  induction l as [|a l IH]; intros Hs Hf; [constructor|]. cbn [map] in *.
+  inversion Hs as [|? ? Hs' Hlt]; subst. inversion Hf as [|? ? Ha Hf']; subst.
+  constructor; [apply IH; assumption|]. apply Forall_forall. intros k Hk.
+  apply in_map_iff in Hk. destruct Hk as (b & <- & Hb).
+  rewrite Forall_forall in Hlt, Hf'. specialize (Hlt (hdr b) (in_map hdr _ _ Hb)). specialize (Hf' b Hb).
+  rewrite !hdr_arith in Hlt by assumption. rewrite !key_arith. lia.
+Qed.
+
+Section StepFacts.
+Variables (c : cont) (A B : list N).
+Hypothesis HA : wf_post A.
+Hypothesis HB : wf_post B.
+
+Lemma ipairs_wf p : In p (ipairs A B) ->
+  fst p < 18446744073709551616 /\ snd p < 18446744073709551616 /\ hdr (snd p) = hdr (fst p) /\ In (fst p) A /\ In (snd p) B.
+Proof.
+  destruct p as [x y]. intro H. apply In_ipairs in H; [|exact HB]. destruct H as (Hx & Hy & E).
+  cbn [fst snd]. pose proof (wf_in _ _ HA Hx). pose proof (wf_in _ _ HB Hy). tauto.
+Qed.
+Lemma aps_wf p : In p (aps A B) ->
+  fst p < 18446744073709551616 /\ snd p < 18446744073709551616 /\ hdr (snd p) = hdr (fst p) + 262144 /\
+  In (fst p) A /\ In (snd p) B /\ adjtest p = true /\ bucket (fst p) <= 14563.
+Proof.
+  destruct p as [x y]. intro H. apply In_aps in H; [|exact HB]. destruct H as (Hx & Hy & E & Ht).
+  cbn [fst snd]. pose proof (wf_in _ _ HA Hx). pose proof (wf_in _ _ HB Hy). tauto.
+Qed.
+Lemma asel_lt p : In p (aps A B) -> asel c p < 18446744073709551616.
+Proof. intro H. apply aps_wf in H. destruct c; cbn [asel]; tauto. Qed.
+
+Lemma NI_hdrs : map hdr (NI c A B) = map (fun p => hdr (fst p)) (ipairs A B).
+Proof.
+  unfold NI. rewrite map_map. apply map_ext_in. intros [x y] Hp. apply ipairs_wf in Hp. cbn [fst snd] in *.
+  apply contI_hdr; tauto.
+Qed.
+Lemma NA_hdrs : map hdr (NA c A B) = map (fun p => hdr (fst p) + match c with CR => 262144 | CL => 0 end) (aps A B).
+Proof.
+  unfold NA. rewrite map_map. apply map_ext_in. intros [x y] Hp. rewrite contA_hdr by (apply asel_lt; exact Hp).
+  apply aps_wf in Hp. cbn [fst snd] in *. destruct c; cbn [asel fst snd]; [lia|tauto].
+Qed.
+Lemma ipairs_sorted : StronglySorted N.lt (map (fun p => hdr (fst p)) (ipairs A B)).
+Proof. apply (ss_spairs _ hdr). apply HA. Qed.
+Lemma aps_sorted : StronglySorted N.lt (map (fun p => hdr (fst p)) (aps A B)).
+Proof. unfold aps, apairs, lpairs. rewrite spairs_filter. apply (ss_spairs _ hdr). apply HA. Qed.
+Lemma NI_sorted : StronglySorted N.lt (map hdr (NI c A B)).
+Proof. rewrite NI_hdrs. apply ipairs_sorted. Qed.
+Lemma NA_sorted : StronglySorted N.lt (map hdr (NA c A B)).
+Proof.
+  rewrite NA_hdrs.
+  rewrite <- (map_map (fun p => hdr (fst p)) (fun h => h + match c with CR => 262144 | CL => 0 end)).
+  apply ss_map_mono; [intros; lia|apply aps_sorted].
+Qed.
+Lemma NI_lt64 : Forall (fun w => w < 18446744073709551616) (NI c A B).
+Proof.
+  unfold NI. apply Forall_map. apply Forall_forall. intros [x y] Hp. apply ipairs_wf in Hp. cbn [fst snd] in *.
+  apply contI_lt; tauto.
+Qed.
+Lemma NA_lt64 : Forall (fun w => w < 18446744073709551616) (NA c A B).
+Proof.
+  unfold NA. apply Forall_map. apply Forall_forall. intros p Hp. apply contA_lt, asel_lt. exact Hp.
+Qed.
+Lemma NI_length : (length (NI c A B) <= length A)%nat.
+Proof. unfold NI. rewrite map_length. apply spairs_length. Qed.
+Lemma NA_length : (length (NA c A B) <= length A)%nat.
+Proof. unfold NA, aps, apairs, lpairs. rewrite map_length, spairs_filter. apply spairs_length. Qed.
+
+Lemma bigram_freqs_eq : N.of_nat (length A) < 2 ^ 62 -> N.of_nat (length B) < 2 ^ 62 -> nocommon A B ->
+  bigram_freqs c A B = AOk (step_counts A B, step_next c A B).
+Proof.
+  intros HlA HlB Hnc. unfold bigram_freqs.
+  destruct (kernel_pairs A B HA HB HlA HlB) as (ia & E & E1 & E2 & E3 & E4).
+  rewrite E. cbn [lift abind]. rewrite E1, E2, E3, E4.
+  rewrite inner_bigram_generic.
+  2:{ intros [x y] Hp Heq. apply ipairs_wf in Hp. cbn [fst snd] in *. subst y. apply (Hnc x); tauto. }
+  cbn [abind]. rewrite adjacent_bigram_generic. fold (aps A B).
+  cbv beta iota zeta.
+  rewrite sort_merge_counts_correct.
+  - cbn [lift abind]. fold (NI c A B). fold (NA c A B).
+    rewrite set_adjbit_spec.
+    + reflexivity.
+    + apply NI_sorted.
+    + apply NA_sorted.
+    + pose proof NI_length. rewrite pow62 in *. lia.
+    + pose proof NA_length. rewrite pow62 in *. lia.
+  - rewrite !map_length. reflexivity.
+  - rewrite !map_length. reflexivity.
+  - apply StronglySorted_Sorted, runs_sum_sorted_keys. unfold inner_kvs. rewrite map_map. cbn [fst].
+    rewrite <- (map_map fst key). apply ss_key_of_hdr.
+    + rewrite map_map. apply ipairs_sorted.
+    + apply Forall_map, Forall_forall. intros p Hp. apply ipairs_wf in Hp. tauto.
+  - apply StronglySorted_Sorted. rewrite run_counts_runs_sum. apply runs_sum_sorted_keys.
+    rewrite map_map. cbn [fst]. rewrite map_id. apply np_sort_sorted.
+Qed.
+End StepFacts.
+
+(* ------------------------------------------------------------------ *)
+(* merging header-disjoint, header-sorted word lists                   *)
+(* ------------------------------------------------------------------ *)
+Lemma In_mrg z l r : In z (mrg l r) <-> In z l \/ In z r.
+Proof.
+  rewrite <- in_app_iff. split; apply Permutation_in; [apply Permutation_sym|]; apply mrg_perm.
+Qed.
+
+Lemma ss_map_filter (f : N -> N) (P : N -> bool) l :
+  StronglySorted N.lt (map f l) -> StronglySorted N.lt (map f (filter P l)).
+Proof.
+  induction l as [|a l IH]; intro H; [constructor|]. cbn [map] in H. inversion H as [|? ? Hs Hf]; subst.
+  cbn [filter]. destruct (P a); cbn [map]; [|apply IH; exact Hs].
+  constructor; [apply IH; exact Hs|]. apply Forall_forall. intros v Hv.
+  apply in_map_iff in Hv. destruct Hv as (b & <- & Hb). apply filter_In in Hb.
+  rewrite Forall_forall in Hf. apply Hf. apply in_map. tauto.
+Qed.
+
+Lemma mrg_hdr_sorted : forall l r,
+  Forall (fun w => w < 18446744073709551616) l -> Forall (fun w => w < 18446744073709551616) r ->
+  StronglySorted N.lt (map hdr l) -> StronglySorted N.lt (map hdr r) ->
+  (forall x y, In x l -> In y r -> hdr x <> hdr y) -> StronglySorted N.lt (map hdr (mrg l r)).
+Proof.
+  induction l as [|x l IHl]; intros r Fl Fr Hl Hr Hd; [rewrite mrg_nil_l; exact Hr|].
+  induction r as [|y r IHr]; [rewrite mrg_nil_r; exact Hl|].
+  rewrite mrg_cons. cbn [map] in Hl, Hr.
+  inversion Hl as [|? ? Hl1 Hl2]; inversion Hr as [|? ? Hr1 Hr2]; subst.
+  inversion Fl as [|? ? Fx Fl']; inversion Fr as [|? ? Fy Fr']; subst.
+  assert (Hxy : hdr x <> hdr y) by (apply Hd; now left).
+  rewrite Forall_forall in Hl2, Hr2.
+  destruct (N.ltb_spec x y); [|destruct (N.ltb_spec y x)].
+  - pose proof (hdr_mono x y Fx Fy ltac:(lia)). cbn [map]. constructor.
+    + apply IHl; try assumption. intros a b Ha Hb. apply Hd; [now right|exact Hb].
+    + apply Forall_forall. intros v Hv. apply in_map_iff in Hv. destruct Hv as (z & <- & Hz).
+      apply In_mrg in Hz. destruct Hz as [Hz|[<-|Hz]].
+      * apply Hl2. apply in_map. exact Hz.
+      * lia.
+      * specialize (Hr2 (hdr z) (in_map hdr _ _ Hz)). lia.
+  - pose proof (hdr_mono y x Fy Fx ltac:(lia)). cbn [map]. constructor.
+    + apply IHr; try assumption. intros a b Ha Hb. apply Hd; [exact Ha|now right].
+    + apply Forall_forall. intros v Hv. apply in_map_iff in Hv. destruct Hv as (z & <- & Hz).
+      apply In_mrg in Hz. destruct Hz as [[<-|Hz]|Hz].
+      * lia.
+      * specialize (Hl2 (hdr z) (in_map hdr _ _ Hz)). lia.
+      * apply Hr2. apply in_map. exact Hz.
+  - exfalso. apply Hxy. f_equal. lia.
+Qed.
+
+(* ------------------------------------------------------------------ *)
+(* the continuation: well-formedness and positions                     *)
+(* ------------------------------------------------------------------ *)
+Section StepSem.
+Variables (c : cont) (A B : list N).
+Hypothesis HA : wf_post A.
+Hypothesis HB : wf_post B.
+
+Lemma In_step_next w : In w (step_next c A B) <->
+  (exists wi, In wi (NI c A B) /\ w = if memh wi (NA c A B) then N.lor wi (cbit c) else wi) \/
+  (In w (NA c A B) /\ memh w (NI c A B) = false).
+Proof.
+  unfold step_next. rewrite In_mrg, in_map_iff, filter_In, negb_true_iff.
+  split; (intros [H|H]; [left|right; exact H]); destruct H as (wi & H1 & H2); exists wi; split; auto.
+Qed.
+
+Lemma NI_in wi : In wi (NI c A B) -> exists x y, In (x, y) (ipairs A B) /\ wi = contI c (x, y).
+Proof. unfold NI. rewrite in_map_iff. intros ([x y] & <- & H). eauto. Qed.
+Lemma NA_in wj : In wj (NA c A B) -> exists x y, In (x, y) (aps A B) /\ wj = contA c (x, y).
+Proof. unfold NA. rewrite in_map_iff. intros ([x y] & <- & H). eauto. Qed.
+
+(* every word of the continuation is below 2^64 and carries the header of a word of A or B *)
+Lemma step_next_src w : In w (step_next c A B) ->
+  w < 18446744073709551616 /\ exists z, (In z A \/ In z B) /\ hdr w = hdr z.
+Proof.
+  intro H. apply In_step_next in H. destruct H as [(wi & Hwi & ->)|[Hw _]].
+  - pose proof (proj1 (Forall_forall _ _) (NI_lt64 c A B HA HB) wi Hwi) as Hlt.
+    destruct (NI_in wi Hwi) as (x & y & Hp & ->). apply (ipairs_wf A B HA HB) in Hp. cbn [fst snd] in Hp.
+    assert (Hh : hdr (contI c (x, y)) = hdr x) by (apply contI_hdr; tauto).
+    destruct (memh (contI c (x, y)) (NA c A B)).
+    + split.
+      * apply lor_lt64; [exact Hlt|]. pose proof (cbit_lt c). lia.
+      * exists x. rewrite hdr_lor_cbit. tauto.
+    + split; [exact Hlt|]. exists x. tauto.
+  - pose proof (proj1 (Forall_forall _ _) (NA_lt64 c A B HA HB) w Hw) as Hlt. split; [exact Hlt|].
+    destruct (NA_in w Hw) as (x & y & Hp & ->). pose proof (asel_lt c A B HA HB _ Hp) as Hs.
+    rewrite contA_hdr by exact Hs. apply (aps_wf A B HA HB) in Hp. cbn [fst snd] in Hp.
+    destruct c; cbn [asel fst snd]; [exists x|exists y]; tauto.
+Qed.
+
+Theorem step_next_wf : wf_post (step_next c A B).
+Proof.
+  split.
+  - unfold step_next. apply mrg_hdr_sorted.
+    + apply Forall_map. eapply Forall_impl; [|apply (NI_lt64 c A B HA HB)]. cbn. intros w Hw.
+      destruct (memh w (NA c A B)); [|exact Hw]. apply lor_lt64; [exact Hw|]. pose proof (cbit_lt c). lia.
+    + apply Forall_filter'. apply (NA_lt64 c A B HA HB).
+    + rewrite map_map.
+      rewrite (map_ext (fun w => hdr (if memh w (NA c A B) then N.lor w (cbit c) else w)) hdr).
+      * apply (NI_sorted c A B HA HB).
+      * intro w. destruct (memh w (NA c A B)); [apply hdr_lor_cbit|reflexivity].
+    + apply ss_map_filter. apply (NA_sorted c A B HA HB).
+    + intros x y Hx Hy E. apply in_map_iff in Hx. destruct Hx as (wi & <- & Hwi).
+      apply filter_In in Hy. destruct Hy as [Hy Hm]. apply negb_true_iff in Hm.
+      assert (Hm' : memh y (NI c A B) = true).
+      { apply memh_true. exists wi. split; [exact Hwi|]. rewrite <- E.
+        destruct (memh wi (NA c A B)); [rewrite hdr_lor_cbit|]; reflexivity. }
+      congruence.
+  - apply Forall_forall. intros w Hw. apply step_next_src in Hw. destruct Hw as (Hlt & z & Hz & E).
+    split; [exact Hlt|].
+    assert (Hzw : z < 18446744073709551616 /\ bucket z <= 14563)
+      by (destruct Hz as [Hz|Hz]; [apply (wf_in _ _ HA Hz)|apply (wf_in _ _ HB Hz)]).
+    destruct Hzw as [Hz64 Hzb]. apply (proj1 (hdr_eq_iff w z Hlt Hz64)) in E. lia.
+Qed.
+
+Lemma has_of_hdr ws z w d q : In w ws -> w < 18446744073709551616 -> z < 18446744073709551616 ->
+  hdr w = hdr z -> key z = d -> bucket z = q / 18 -> N.testbit w (q mod 18) = true -> has ws d q.
+Proof.
+  intros Hin Hw Hz E Hk Hb Ht. apply (proj1 (hdr_eq_iff w z Hw Hz)) in E. destruct E as [E1 E2].
+  exists w. repeat split; congruence.
+Qed.
+
+(* the cross-word case, read backwards *)
+Lemma adj_has x y w d q : In (x, y) (aps A B) -> w < 18446744073709551616 ->
+  hdr w = hdr (asel c (x, y)) -> key w = d -> bucket w = q / 18 -> q mod 18 = abit c ->
+  exists p, q = p + off c /\ has A d p /\ has B d (p + 1).
+Proof.
+  intros Hp Hw E Hk Hb Hq. apply (aps_wf A B HA HB) in Hp. cbn [fst snd] in Hp.
+  destruct Hp as (Hx & Hy & Hh & HxA & HyB & Ht & Hbx).
+  rewrite adjtest_bits in Ht. cbn [fst snd] in Ht. apply andb_true_iff in Ht. destruct Ht as [T17 T0].
+  apply (proj1 (hdr_next_iff x y Hx Hy Hbx)) in Hh. destruct Hh as [Hkk Hbb].
+  destruct c; cbn [asel fst snd abit off] in *.
+  - apply (proj1 (hdr_eq_iff w x Hw Hx)) in E. destruct E as [E1 E2].
+    exists q. split; [lia|]. split.
+    + refine (ex_intro _ x (conj HxA (conj _ (conj _ _)))); [congruence|congruence|].
+      rewrite Hq. exact T17.
+    + refine (ex_intro _ y (conj HyB (conj _ (conj _ _)))); [congruence|lia|].
+      replace ((q + 1) mod 18) with 0 by lia. exact T0.
+  - apply (proj1 (hdr_eq_iff w y Hw Hy)) in E. destruct E as [E1 E2].
+    exists (q - 1). split; [lia|]. split.
+    + refine (ex_intro _ x (conj HxA (conj _ (conj _ _)))); [congruence|lia|].
+      replace ((q - 1) mod 18) with 17 by lia. exact T17.
+    + replace (q - 1 + 1) with q by lia.
+      refine (ex_intro _ y (conj HyB (conj _ (conj _ _)))); [congruence|congruence|].
+      rewrite Hq. exact T0.
+Qed.
+
+Theorem step_has d q :
+  has (step_next c A B) d q <-> exists p, q = p + off c /\ has A d p /\ has B d (p + 1).
+Proof.
+  assert (Hq18 : q mod 18 < 18) by (apply N.mod_lt; lia).
+  split.
+  - intros (w & Hw & Hk & Hb & Ht).
+    pose proof (step_next_src w Hw) as [Hw64 _].
+    apply In_step_next in Hw. destruct Hw as [(wi & Hwi & Ew)|[Hw Hm]].
+    + destruct (NI_in wi Hwi) as (x & y & Hp & Ewi).
+      pose proof (ipairs_wf A B HA HB _ Hp) as Hpw. cbn [fst snd] in Hpw.
+      destruct Hpw as (Hx & Hy & Hh & HxA & HyB).
+      assert (Hhi : hdr wi = hdr x) by (rewrite Ewi; apply contI_hdr; assumption).
+      assert (Hhw : hdr w = hdr x).
+      { rewrite Ew. destruct (memh wi (NA c A B)); [rewrite hdr_lor_cbit|]; exact Hhi. }
+      assert (Tw : N.testbit wi (q mod 18) = true \/ (memh wi (NA c A B) = true /\ q mod 18 = abit c)).
+      { rewrite Ew in Ht. destruct (memh wi (NA c A B)); [|left; exact Ht].
+        rewrite testbit_lor_cbit in Ht. apply orb_true_iff in Ht. destruct Ht as [Ht|Ht]; [left; exact Ht|].
+        right. split; [reflexivity|]. apply N.eqb_eq. exact Ht. }
+      destruct Tw as [Tw|[Hm Hqa]].
+      * (* an in-word match *)
+        assert (Hna : q mod 18 <> abit c).
+        { intro E. rewrite E, Ewi, contI_abit in Tw by assumption. discriminate. }
+        assert (Hj : exists j, j < 17 /\ q mod 18 = j + off c).
+        { destruct c; cbn [abit off] in *; [exists (q mod 18)|exists (q mod 18 - 1)]; lia. }
+        destruct Hj as (j & Hj & Ej). rewrite Ej, Ewi, contI_bit in Tw by assumption.
+        apply andb_true_iff in Tw. destruct Tw as [Tx Ty].
+        apply (proj1 (hdr_eq_iff w x Hw64 Hx)) in Hhw. destruct Hhw as [K1 K2].
+        apply (proj1 (hdr_eq_iff y x Hy Hx)) in Hh. destruct Hh as [K3 K4].
+        assert (Hoff : off c <= 1) by (destruct c; cbn; lia).
+        exists (q - off c). split; [lia|]. split.
+        -- refine (ex_intro _ x (conj HxA (conj _ (conj _ _)))); [congruence|lia|].
+           replace ((q - off c) mod 18) with j by lia. exact Tx.
+        -- refine (ex_intro _ y (conj HyB (conj _ (conj _ _)))); [congruence|lia|].
+           replace ((q - off c + 1) mod 18) with (j + 1) by lia. exact Ty.
+      * (* the bit set by _set_adjbit_at_header *)
+        apply memh_true in Hm. destruct Hm as (wj & Hwj & Ej).
+        destruct (NA_in wj Hwj) as (x' & y' & Hp' & ->).
+        apply (adj_has x' y' w d q Hp' Hw64); try assumption.
+        rewrite <- contA_hdr by (apply (asel_lt c A B HA HB); exact Hp'). congruence.
+    + destruct (NA_in w Hw) as (x' & y' & Hp' & ->).
+      pose proof (asel_lt c A B HA HB _ Hp') as Hs.
+      rewrite contA_bit in Ht by assumption. apply N.eqb_eq in Ht.
+      apply (adj_has x' y' _ d q Hp' Hw64); try assumption. apply contA_hdr. exact Hs.
+  - intros (p & -> & (x & HxA & Kx & Bx & Tx) & (y & HyB & Ky & By & Ty)).
+    destruct (wf_in _ _ HA HxA) as [Hx Hbx]. destruct (wf_in _ _ HB HyB) as [Hy Hby].
+    assert (Hp18 : p mod 18 < 18) by (apply N.mod_lt; lia).
+    assert (Hoff : off c <= 1) by (destruct c; cbn; lia).
+    destruct (N.eq_dec (p mod 18) 17) as [E17|N17].
+    + (* cross-word *)
+      assert (Hh : hdr y = hdr x + 262144) by (apply (hdr_next_iff x y Hx Hy Hbx); split; [congruence|lia]).
+      assert (Hp : In (x, y) (aps A B)).
+      { apply In_aps; [exact HB|]. repeat split; try assumption.
+        rewrite adjtest_bits. cbn [fst snd]. rewrite E17 in Tx. rewrite Tx.
+        replace ((p + 1) mod 18) with 0 in Ty by lia. rewrite Ty. reflexivity. }
+      pose proof (asel_lt c A B HA HB _ Hp) as Hs.
+      set (wj := contA c (x, y)).
+      assert (Hwj : In wj (NA c A B)) by (unfold NA; apply in_map; exact Hp).
+      assert (Hhj : hdr wj = hdr (asel c (x, y))) by (apply contA_hdr; exact Hs).
+      assert (Hz : key (asel c (x, y)) = d /\ bucket (asel c (x, y)) = (p + off c) / 18 /\ (p + off c) mod 18 = abit c).
+      { destruct c; cbn [asel fst snd off abit]; repeat split; try assumption; lia. }
+      destruct Hz as (Z1 & Z2 & Z3).
+      destruct (memh wj (NI c A B)) eqn:Hm.
+      * apply memh_true in Hm. destruct Hm as (wi & Hwi & Ei).
+        assert (Hm2 : memh wi (NA c A B) = true) by (apply memh_true; exists wj; split; [exact Hwj|congruence]).
+        pose proof (proj1 (Forall_forall _ _) (NI_lt64 c A B HA HB) wi Hwi) as Hwi64.
+        apply (has_of_hdr _ (asel c (x, y)) (N.lor wi (cbit c))); try assumption.
+        -- apply In_step_next. left. exists wi. split; [exact Hwi|]. rewrite Hm2. reflexivity.
+        -- apply lor_lt64; [exact Hwi64|]. pose proof (cbit_lt c). lia.
+        -- rewrite hdr_lor_cbit. congruence.
+        -- rewrite testbit_lor_cbit, Z3, N.eqb_refl. apply orb_true_r.
+      * apply (has_of_hdr _ (asel c (x, y)) wj); try assumption.
+        -- apply In_step_next. right. split; assumption.
+        -- apply contA_lt. exact Hs.
+        -- unfold wj. rewrite contA_bit by (try exact Hs; rewrite Z3; apply abit_lt).
+           apply N.eqb_eq. exact Z3.
+    + (* in-word *)
+      assert (Hh : hdr y = hdr x) by (apply (hdr_eq_iff y x Hy Hx); split; [congruence|lia]).
+      assert (Hp : In (x, y) (ipairs A B)) by (apply In_ipairs; [exact HB|tauto]).
+      set (wi := contI c (x, y)).
+      assert (Hwi : In wi (NI c A B)) by (unfold NI; apply in_map; exact Hp).
+      assert (Hhi : hdr wi = hdr x) by (apply contI_hdr; assumption).
+      assert (Hwi64 : wi < 18446744073709551616) by (apply contI_lt; assumption).
+      assert (Tb : N.testbit wi ((p + off c) mod 18) = true).
+      { replace ((p + off c) mod 18) with (p mod 18 + off c) by lia.
+        unfold wi. rewrite contI_bit by (try assumption; lia). rewrite Tx.
+        replace ((p + 1) mod 18) with (p mod 18 + 1) in Ty by lia. rewrite Ty. reflexivity. }
+      apply (has_of_hdr _ x (if memh wi (NA c A B) then N.lor wi (cbit c) else wi)); try assumption.
+      * apply In_step_next. left. exists wi. split; [exact Hwi|reflexivity].
+      * destruct (memh wi (NA c A B)); [|exact Hwi64]. apply lor_lt64; [exact Hwi64|]. pose proof (cbit_lt c). lia.
+      * destruct (memh wi (NA c A B)); [rewrite hdr_lor_cbit|]; exact Hhi.
+      * lia.
+      * destruct (memh wi (NA c A B)); [|exact Tb]. rewrite testbit_lor_cbit, Tb. reflexivity.
+Qed.
+End StepSem.
+
+(* ------------------------------------------------------------------ *)
+(* the counts                                                          *)
+(* ------------------------------------------------------------------ *)
+Definition nsum (f : N -> N) (l : list N) : N := fold_right (fun x acc => f x + acc) 0 l.
+Lemma nsum_ext_in f g l : (forall x, In x l -> f x = g x) -> nsum f l = nsum g l.
+Proof.
+  induction l as [|x l IH]; intro H; [reflexivity|]. cbn [nsum fold_right]. fold (nsum f l). fold (nsum g l).
+  rewrite H by (now left). rewrite IH by (intros; apply H; now right). reflexivity.
+Qed.
+Lemma nsum_add f g l : nsum (fun x => f x + g x) l = nsum f l + nsum g l.
+Proof.
+  induction l as [|x l IH]; [reflexivity|]. cbn [nsum fold_right].
+  fold (nsum (fun x => f x + g x) l). fold (nsum f l). fold (nsum g l). rewrite IH. lia.
+Qed.
+Lemma nsum_filter (P : N -> bool) f l : nsum f (filter P l) = nsum (fun x => if P x then f x else 0) l.
+Proof.
+  induction l as [|x l IH]; [reflexivity|]. cbn [filter nsum fold_right].
+  fold (nsum (fun x => if P x then f x else 0) l). rewrite <- IH. destruct (P x); reflexivity.
+Qed.
+Lemma length_flat_map_nsum (g : N -> list N) l :
+  N.of_nat (length (flat_map g l)) = nsum (fun x => N.of_nat (length (g x))) l.
+Proof.
+  induction l as [|x l IH]; [reflexivity|]. cbn [flat_map nsum fold_right].
+  fold (nsum (fun x => N.of_nat (length (g x))) l). rewrite app_length, Nat2N.inj_add, IH. reflexivity.
+Qed.
+Lemma filter_flat_map {X Y} (P : Y -> bool) (g : X -> list Y) l :
+  filter P (flat_map g l) = flat_map (fun x => filter P (g x)) l.
+Proof. induction l as [|x l IH]; [reflexivity|]. cbn [flat_map]. rewrite filter_app, IH. reflexivity. Qed.
+Lemma filter_split_length {X} (Q P : X -> bool) l :
+  length (filter P l) = (length (filter (fun a => Q a && P a) l) + length (filter (fun a => negb (Q a) && P a) l))%nat.
+Proof.
+  induction l as [|x l IH]; [reflexivity|]. cbn [filter]. destruct (Q x), (P x); cbn [andb negb length]; lia.
+Qed.
+Lemma filter_false {X} (l : list X) : filter (fun _ => false) l = [].
+Proof. induction l; [reflexivity|assumption]. Qed.
+
+Lemma ksum_spairs d (sel : N -> option N) (g : N * N -> N) l :
+  ksum d (map (fun p => (key (fst p), g p)) (spairs sel l)) =
+  nsum (fun x => if key x =? d then match sel x with Some y => g (x, y) | None => 0 end else 0) l.
+Proof.
+  induction l as [|x l IH]; [reflexivity|]. rewrite spairs_cons, map_app, ksum_app, IH.
+  cbn [nsum fold_right]. f_equal.
+  destruct (sel x) as [y|]; cbn [map]; [|destruct (key x =? d); reflexivity].
+  rewrite ksum_cons. cbn [fst snd ksum fold_right]. destruct (key x =? d); lia.
+Qed.
+
+Definition partner_i (B : list N) (x : N) : option N := partner hdr hdr (fun v => v) B x.
+Definition partner_a (B : list N) (x : N) : option N := partner hdr hdr (fun v => v + 262144) B x.
+Definition sel_a (B : list N) (x : N) : option N :=
+  match partner_a B x with Some y => if adjtest (x, y) then Some y else None | None => None end.
+
+Lemma aps_spairs A B : aps A B = spairs (sel_a B) A.
+Proof. unfold aps, apairs, lpairs. rewrite spairs_filter. reflexivity. Qed.
+
+Lemma filter_eq17 (K : bool) : filter (fun i => (i =? 17) && K) bits18 = if K then [17] else [].
+Proof. destruct K; reflexivity. Qed.
+
+Section Counts.
+Variables (A B : list N).
+Hypothesis HA : wf_post A.
+Hypothesis HB : wf_post B.
+
+Lemma partner_i_some x y : partner_i B x = Some y -> In y B /\ hdr y = hdr x.
+Proof. intro H. apply find_some in H. destruct H as [H1 H2]. apply N.eqb_eq in H2. auto. Qed.
+Lemma partner_i_none x y : partner_i B x = None -> In y B -> hdr y <> hdr x.
+Proof. intros H Hy. apply (find_none _ _ H) in Hy. apply N.eqb_neq in Hy. exact Hy. Qed.
+Lemma partner_a_some x y : partner_a B x = Some y -> In y B /\ hdr y = hdr x + 262144.
+Proof. intro H. apply find_some in H. destruct H as [H1 H2]. apply N.eqb_eq in H2. auto. Qed.
+Lemma partner_a_none x y : partner_a B x = None -> In y B -> hdr y <> hdr x + 262144.
+Proof. intros H Hy. apply (find_none _ _ H) in Hy. apply N.eqb_neq in Hy. exact Hy. Qed.
+
+Lemma phi_inner x d p : In x A -> key x = d -> p / 18 = bucket x -> p mod 18 <> 17 ->
+  mem_n (p + 1) (dposns B d) =
+  match partner_i B x with Some y => mem_n (p + 1) (wposns y) | None => false end.
+Proof.
+  intros HxA Hk Hb H17. destruct (wf_in _ _ HA HxA) as [Hx _].
+  assert (Hp18 : p mod 18 < 18) by (apply N.mod_lt; lia).
+  apply bool_eq_iff. rewrite mem_n_In, In_dposns.
+  destruct (partner_i B x) as [y|] eqn:E.
+  - apply partner_i_some in E. destruct E as [HyB Hh]. destruct (wf_in _ _ HB HyB) as [Hy _].
+    rewrite mem_n_In, In_wposns. split.
+    + intros (y' & Hy'B & K' & B' & T'). destruct (wf_in _ _ HB Hy'B) as [Hy' _].
+      assert (y' = y).
+      { apply (hdr_inj_in B); try assumption. rewrite Hh. apply (hdr_eq_iff y' x Hy' Hx). split; [congruence|lia]. }
+      subst y'. split; [congruence|exact T'].
+    + intros [B' T']. apply (proj1 (hdr_eq_iff y x Hy Hx)) in Hh. destruct Hh as [K1 K2].
+      exists y. repeat split; try assumption; congruence.
+  - split; [|discriminate]. intros (y' & Hy'B & K' & B' & T'). exfalso.
+    destruct (wf_in _ _ HB Hy'B) as [Hy' _]. apply (partner_i_none x y' E Hy'B).
+    apply (hdr_eq_iff y' x Hy' Hx). split; [congruence|lia].
+Qed.
+
+Lemma phi_adj x d : In x A -> key x = d ->
+  mem_n (18 * bucket x + 17 + 1) (dposns B d) =
+  match partner_a B x with Some y => N.testbit y 0 | None => false end.
+Proof.
+  intros HxA Hk. destruct (wf_in _ _ HA HxA) as [Hx Hbx].
+  apply bool_eq_iff. rewrite mem_n_In, In_dposns.
+  replace ((18 * bucket x + 17 + 1) / 18) with (bucket x + 1) by lia.
+  destruct (partner_a B x) as [y|] eqn:E.
+  - apply partner_a_some in E. destruct E as [HyB Hh]. destruct (wf_in _ _ HB HyB) as [Hy _].
+    split.
+    + intros (y' & Hy'B & K' & B' & T'). destruct (wf_in _ _ HB Hy'B) as [Hy' _].
+      replace ((18 * bucket x + 17 + 1) / 18) with (bucket x + 1) in B' by lia.
+      replace ((18 * bucket x + 17 + 1) mod 18) with 0 in T' by lia.
+      assert (y' = y).
+      { apply (hdr_inj_in B); try assumption. rewrite Hh. apply (hdr_next_iff x y' Hx Hy' Hbx). split; congruence. }
+      subst y'. exact T'.
+    + intro T'. apply (proj1 (hdr_next_iff x y Hx Hy Hbx)) in Hh. destruct Hh as [K1 K2].
+      exists y. split; [exact HyB|]. split; [congruence|]. split; [lia|].
+      replace ((18 * bucket x + 17 + 1) mod 18) with 0 by lia. exact T'.
+  - split; [|discriminate]. intros (y' & Hy'B & K' & B' & T'). exfalso.
+    destruct (wf_in _ _ HB Hy'B) as [Hy' _]. apply (partner_a_none x y' E Hy'B).
+    replace ((18 * bucket x + 17 + 1) / 18) with (bucket x + 1) in B' by lia.
+    apply (hdr_next_iff x y' Hx Hy' Hbx). split; congruence.
+Qed.
+
+(* matches starting in word x = in-word matches + the cross-word match *)
+Lemma word_matches x d : In x A -> key x = d ->
+  N.of_nat (length (filter (fun p => mem_n (p + 1) (dposns B d)) (wposns x))) =
+  match partner_i B x with Some y => popcount (ov x y) | None => 0 end +
+  match sel_a B x with Some _ => 1 | None => 0 end.
+Proof.
+  intros HxA Hk. destruct (wf_in _ _ HA HxA) as [Hx Hbx].
+  rewrite (filter_split_length (fun p => negb (p mod 18 =? 17))), Nat2N.inj_add. f_equal.
+  - destruct (partner_i B x) as [y|] eqn:E.
+    + rewrite (filter_ext_in _ (fun p => negb (p mod 18 =? 17) && mem_n (p + 1) (wposns y))).
+      * symmetry. apply inner_popcount. apply partner_i_some in E. destruct E as [HyB Hh].
+        destruct (wf_in _ _ HB HyB) as [Hy _]. symmetry. apply (hdr_eq_iff y x Hy Hx). exact Hh.
+      * intros p Hp. apply In_wposns in Hp. destruct Hp as [Hb _].
+        destruct (N.eqb_spec (p mod 18) 17) as [E17|N17]; [reflexivity|].
+        rewrite (phi_inner x d p HxA Hk Hb N17), E. reflexivity.
+    + rewrite (filter_ext_in _ (fun _ => false)); [rewrite filter_false; reflexivity|].
+      intros p Hp. apply In_wposns in Hp. destruct Hp as [Hb _].
+      destruct (N.eqb_spec (p mod 18) 17) as [E17|N17]; [reflexivity|].
+      rewrite (phi_inner x d p HxA Hk Hb N17), E. reflexivity.
+  - unfold wposns. rewrite filter_map_comm, map_length. unfold bit_list. rewrite filter_filter.
+    rewrite (filter_ext_in _ (fun i => (i =? 17) && (N.testbit x 17 && mem_n (18 * bucket x + 17 + 1) (dposns B d)))).
+    + rewrite filter_eq17, (phi_adj x d HxA Hk). unfold sel_a.
+      destruct (partner_a B x) as [y|]; [|rewrite andb_false_r; reflexivity].
+      rewrite adjtest_bits. cbn [fst snd]. destruct (N.testbit x 17 && N.testbit y 0); reflexivity.
+    + intros i Hi. apply in_bits18 in Hi. rewrite lsb_testbit_low by exact Hi.
+      replace ((18 * bucket x + i) mod 18) with i by lia. rewrite negb_involutive.
+      destruct (N.eqb_spec i 17) as [->|Hne]; cbn [andb]; [reflexivity|apply andb_false_r].
+Qed.
+
+Lemma step_counts_spec : StronglySorted N.lt (map fst (step_counts A B)) /\
+  forall d, let n := N.of_nat (length (filter (fun p => mem_n (p + 1) (dposns B d)) (dposns A d))) in
+            match lookup d (step_counts A B) with Some v => v = n | None => n = 0 end.
+Proof.
+  unfold step_counts. cbn zeta.
+  destruct (merged_counts (runs_sum (inner_kvs (ipairs A B)))
+              (run_counts (np_sort (map (fun p => key (fst p)) (aps A B))))) as [Hs Hl].
+  split; [exact Hs|]. intro d.
+  assert (E : N.of_nat (length (filter (fun p => mem_n (p + 1) (dposns B d)) (dposns A d))) =
+              ksum d (runs_sum (inner_kvs (ipairs A B))) +
+              ksum d (run_counts (np_sort (map (fun p => key (fst p)) (aps A B))))).
+  { unfold dposns at 2. rewrite filter_flat_map, length_flat_map_nsum, nsum_filter.
+    rewrite ksum_runs_sum, run_counts_runs_sum, ksum_runs_sum.
+    rewrite <- (ksum_perm d _ _ (Permutation_map (fun x => (x, 1)) (np_sort_perm _))).
+    rewrite map_map. unfold inner_kvs, ipairs, lpairs.
+    rewrite (ksum_spairs d _ (fun p => popcount (ov (fst p) (snd p)))).
+    rewrite aps_spairs, (ksum_spairs d _ (fun _ => 1)), <- nsum_add.
+    apply nsum_ext_in. intros x Hx. destruct (N.eqb_spec (key x) d) as [Hk|Hk]; [|reflexivity].
+    rewrite (word_matches x d Hx Hk). reflexivity. }
+  rewrite E. apply Hl.
+Qed.
+End Counts.
+
+(* ------------------------------------------------------------------ *)
+(* Stage 2: the bigram step                                            *)
+(* ------------------------------------------------------------------ *)
+Definition matched (A B : list N) (d : N) : list N :=
+  filter (fun p => mem_n (p + 1) (dposns B d)) (dposns A d).
+
+Lemma step_next_dposns c A B d : wf_post A -> wf_post B ->
+  dposns (step_next c A B) d = map (fun p => p + off c) (matched A B d).
+Proof.
+  intros HA HB. apply sslt_In_eq.
+  - apply dposns_sorted, step_next_wf; assumption.
+  - apply ss_map_mono; [intros; lia|]. apply ss_filter, dposns_sorted. exact HA.
+  - intro q. rewrite In_dposns, (step_has c A B HA HB d q), in_map_iff. unfold matched. split.
+    + intros (p & -> & H1 & H2). exists p. split; [reflexivity|]. apply filter_In.
+      rewrite In_dposns, mem_n_In, In_dposns. tauto.
+    + intros (p & <- & H). apply filter_In in H. rewrite In_dposns, mem_n_In, In_dposns in H. eauto.
+Qed.
+
+Theorem bigram_step : forall c A B, wf_post A -> wf_post B ->
+  N.of_nat (length A) < 2 ^ 62 -> N.of_nat (length B) < 2 ^ 62 -> nocommon A B ->
+  exists counts next, bigram_freqs c A B = AOk (counts, next) /\
+    wf_post next /\
+    (forall d, dposns next d = map (fun p => p + off c) (matched A B d)) /\
+    StronglySorted N.lt (map fst counts) /\
+    (forall d, match lookup d counts with
+               | Some n => n = N.of_nat (length (dposns next d))
+               | None => dposns next d = []
+               end).
+Proof.
+  intros c A B HA HB HlA HlB Hnc.
+  exists (step_counts A B), (step_next c A B).
+  split; [apply bigram_freqs_eq; assumption|].
+  split; [apply step_next_wf; assumption|].
+  split; [intro d; apply step_next_dposns; assumption|].
+  destruct (step_counts_spec A B HA HB) as [Hs Hl]. split; [exact Hs|].
+  intro d. specialize (Hl d). cbn zeta in Hl. rewrite step_next_dposns by assumption.
+  rewrite map_length. fold (matched A B d) in Hl.
+  destruct (lookup d (step_counts A B)); [exact Hl|].
+  destruct (matched A B d); [reflexivity|cbn [length] in Hl; lia].
+Qed.
+
+(* the two instances, in the list form of the task statement *)
+Theorem bigram_step_CR : forall A B, wf_post A -> wf_post B ->
+  N.of_nat (length A) < 2 ^ 62 -> N.of_nat (length B) < 2 ^ 62 -> nocommon A B ->
+  exists counts next, bigram_freqs CR A B = AOk (counts, next) /\
+    wf_post next /\
+    (forall d, dposns next d =
+               map N.succ (filter (fun p => existsb (N.eqb (p + 1)) (dposns B d)) (dposns A d))) /\
+    StronglySorted N.lt (map fst counts) /\
+    (forall d, match lookup d counts with
+               | Some n => n = N.of_nat (length (dposns next d))
+               | None => dposns next d = []
+               end).
+Proof.
+  intros A B HA HB HlA HlB Hnc.
+  destruct (bigram_step CR A B HA HB HlA HlB Hnc) as (counts & next & E & Hwf & Hd & Hs & Hl).
+  exists counts, next. split; [exact E|]. split; [exact Hwf|]. split; [|split; [exact Hs|exact Hl]].
+  intro d. rewrite Hd. apply map_ext. intro p. cbn [off]. lia.
+Qed.
+
+Theorem bigram_step_CL : forall A B, wf_post A -> wf_post B ->
+  N.of_nat (length A) < 2 ^ 62 -> N.of_nat (length B) < 2 ^ 62 -> nocommon A B ->
+  exists counts next, bigram_freqs CL A B = AOk (counts, next) /\
+    wf_post next /\
+    (forall d, dposns next d = filter (fun p => existsb (N.eqb (p + 1)) (dposns B d)) (dposns A d)) /\
+    StronglySorted N.lt (map fst counts) /\
+    (forall d, match lookup d counts with
+               | Some n => n = N.of_nat (length (dposns next d))
+               | None => dposns next d = []
+               end).
+Proof.
+  intros A B HA HB HlA HlB Hnc.
+  destruct (bigram_step CL A B HA HB HlA HlB Hnc) as (counts & next & E & Hwf & Hd & Hs & Hl).
+  exists counts, next. split; [exact E|]. split; [exact Hwf|]. split; [|split; [exact Hs|exact Hl]].
+  intro d. rewrite Hd. transitivity (map (fun p => p) (matched A B d)); [|apply map_id].
+  apply map_ext. intro p. cbn [off]. lia.
+Qed.
+
+(* a sufficient condition for [nocommon]: the two lists never hold the same position of the same document
+   and one of them has no zero-payload word (true of every canonical term posting list) *)
+Lemma nocommon_of_disjoint A B : wf_post A -> wf_post B ->
+  (Forall (fun w => lsb w <> 0) A \/ Forall (fun w => lsb w <> 0) B) ->
+  (forall d p, has A d p -> has B d p -> False) -> nocommon A B.
+Proof.
+  intros HA HB Hnz Hdis w HwA HwB.
+  assert (Hl : lsb w <> 0).
+  { destruct Hnz as [H|H]; rewrite Forall_forall in H; auto. }
+  pose proof (N.bit_log2 (lsb w) Hl) as Hbit. rewrite lsb_testbit in Hbit.
+  apply andb_true_iff in Hbit. destruct Hbit as [Hi Ht]. apply N.ltb_lt in Hi.
+  set (i := N.log2 (lsb w)) in *.
+  assert (Hhas : forall ws, In w ws -> has ws (key w) (18 * bucket w + i)).
+  { intros ws Hin. exists w. split; [exact Hin|]. split; [reflexivity|]. split; [lia|].
+    replace ((18 * bucket w + i) mod 18) with i by lia. exact Ht. }
+  apply (Hdis (key w) (18 * bucket w + i)); apply Hhas; assumption.
+Qed.
+
+(* the same-term branch really is different: on A = B (a term followed by itself) the generic statement
+   fails, e.g. positions 3,4,5 of one document give 2 bigram matches but the model reports 1 *)
+Example same_term_differs :
+  let A := encode_spec [(0, 3); (0, 4); (0, 5)] in
+  bigram_freqs CR A A = AOk ([(0, 1)], [48]) /\ matched A A 0 = [3; 4].
+Proof. vm_compute. split; reflexivity. Qed.
+
+Print Assumptions kernel_pairs.
+Print Assumptions set_adjbit_spec.
+Print Assumptions bigram_step.
+Print Assumptions bigram_step_CR.
+Print Assumptions bigram_step_CL.
+Print Assumptions nocommon_of_disjoint.
